@@ -92,6 +92,8 @@ class Runner:
         self.real = RepeaterStorage()
         self.recs = []  # model: ordered list of {"obj": Repeater, "id": UUID, "fields": {...}, "attrs": {...}}
         self.n_patch_with_two = 0
+        self.n_ambiguous = 0
+        self.stable = {}  # address -> model record returned at the last lookup of that address (see _check_any)
         self.n_ops = 0
         self.kinds = set()
 
@@ -105,6 +107,8 @@ class Runner:
     def _model_patch(self, rec, patch):
         for k, v in patch.items():
             if k in FIELDS:
+                if k == "address_in":
+                    self._touch(rec["fields"][k], _addr(v))
                 rec["fields"][k] = _addr(v) if k in ADDR_FIELDS else v
             elif v is not None:
                 rec["attrs"][k] = v
@@ -124,6 +128,35 @@ class Runner:
         if got is not exp_rec["obj"]:
             raise Fail(f"{what}_returns_same_object_for_same_record", f"object with id {getattr(got, 'id', None)}", f"the object first returned for id {exp_rec['id']}")
 
+    def _check_any(self, got, matching, what, key=None):
+        """`got` must be one of the records that match (None when none does).  The statement speaks of ONE record per address;
+        when patches have given several records the same key the choice among them is the library's, but it must be stable:
+        the same record as at the previous lookup of that key unless an address change / creation involving the key happened
+        in between (self.stable[key] is dropped by _touch)."""
+        if not matching:
+            if got is not None:
+                raise Fail(f"{what}_returns_none_when_no_record_matches", repr(got), None)
+            return None
+        if got is None:
+            raise Fail(f"{what}_returns_matching_record", None, [str(r["id"]) for r in matching])
+        rec = next((r for r in matching if r["obj"] is got), None)
+        if rec is None:
+            raise Fail(f"{what}_returns_same_object_for_same_record", f"object with id {getattr(got, 'id', None)}",
+                       "one of the objects first returned for id(s) " + ", ".join(str(r["id"]) for r in matching))
+        if len(matching) > 1:
+            self.n_ambiguous += 1
+        if key is not None:
+            prev = self.stable.get(key)
+            if prev is not None and prev is not rec:
+                raise Fail(f"{what}_returns_same_object_for_same_record", f"object with id {rec['id']}",
+                           f"the object returned at the previous lookup of this address (id {prev['id']}); no address changed in between")
+            self.stable[key] = rec
+        return rec
+
+    def _touch(self, *addrs):
+        for a in addrs:
+            self.stable.pop(a, None)
+
     # -- ops -------------------------------------------------------------------------------
     def apply(self, op):
         self.n_ops += 1
@@ -136,7 +169,8 @@ class Runner:
         addr = _addr(op["addr"])
         patch = op.get("patch") or {}
         auto = bool(op["auto_create"])
-        exp = self._first(lambda r: r["fields"]["address_in"] == addr)
+        matching = [r for r in self.recs if r["fields"]["address_in"] == addr]
+        exp = matching[0] if matching else None
         n_before = len(self.real)
         if exp is None and not auto and patch:
             # documented deviation: the call raises AttributeError on the missing record; storage must stay unchanged
@@ -163,11 +197,12 @@ class Runner:
                 "attrs": {k: v for k in DYN_KEYS if k not in patch for v in [got.attr(k)] if v is not None},
             }
             self.recs.append(rec)
+            self._touch(addr)
             self._model_patch(rec, patch)
             return
-        self._check_result(got, exp, "match_incoming")
-        if exp is not None:
-            self._model_patch(exp, patch)
+        hit = self._check_any(got, matching, "match_incoming", key=addr)
+        if hit is not None:
+            self._model_patch(hit, patch)
         if not auto and len(self.real) != n_before:
             raise Fail("lookup_without_autocreate_never_grows_storage", len(self.real), n_before)
 
@@ -192,13 +227,13 @@ class Runner:
     def op_match_attr(self, op):
         f, v = op["field"], op["value"]
         v = _addr(v) if f in ADDR_FIELDS else v
-        exp = self._first(lambda r: r["fields"][f] == v)
-        self._check_result(self.real.match_attr(f, v), exp, "match_attr")
+        matching = [r for r in self.recs if r["fields"][f] == v]
+        self._check_any(self.real.match_attr(f, v), matching, "match_attr", key=(v if f == "address_in" else None))
 
     def op_match_ip_incoming(self, op):
         ip = op["ip"]
-        exp = self._first(lambda r: r["fields"]["address_in"] is not None and r["fields"]["address_in"][0] == ip)
-        self._check_result(self.real.match_ip_incoming(ip), exp, "match_ip_incoming")
+        matching = [r for r in self.recs if r["fields"]["address_in"] is not None and r["fields"]["address_in"][0] == ip]
+        self._check_any(self.real.match_ip_incoming(ip), matching, "match_ip_incoming")
 
     def op_match_uuid(self, op):
         if op.get("unknown") or not self.recs:
@@ -282,6 +317,8 @@ class Runner:
             out.append("patch_while_two_records_exist")
         if len({r["fields"]["address_in"] for r in self.recs}) < len(self.recs):
             out.append("duplicate_address_in_after_patch")
+        if self.n_ambiguous:
+            out.append("lookup_with_several_matching_records")
         return out
 
 
@@ -392,7 +429,42 @@ def drv_random(ctx: Ctx, sub: SubCheck):
     ctx.shards(work, list(range(16)))
 
 
+def drv_duplicates(ctx: Ctx, sub: SubCheck):
+    """Directed histories for the one situation in which the choice of the returned record is the library's: patches have
+    given two or three records the same address_in.  Every way of getting there x every single-field perturbation of every
+    record (built-in scalar / address fields with every pool value, a few dynamic attributes) x every way of applying it,
+    with lookups of the shared address (all three lookup calls) before and after: the record returned must not change,
+    because no address changed in between (Runner._check_any)."""
+    a0, a1, a2 = ADDRS[0], ADDRS[1], ADDRS[2]
+    mk = lambda a, p=None: {"op": "match_incoming", "addr": a, "auto_create": True, "patch": p or {}}
+    look = [{"op": "match_incoming", "addr": a1, "auto_create": False, "patch": {}}, {"op": "match_attr", "field": "address_in", "value": a1},
+            {"op": "match_ip_incoming", "ip": a1[0]}]
+    setups = {
+        "older_moved_onto_newer": [mk(a0), mk(a1), {"op": "save", "rec": 0, "patch": {"address_in": a1}}],
+        "newer_moved_onto_older": [mk(a1), mk(a0), {"op": "patch", "rec": 1, "patch": {"address_in": a1}}],
+        "created_with_patch": [mk(a1), mk(a0, {"address_in": a1})],
+        "three_records": [mk(a0), mk(a1), mk(a2), {"op": "save", "rec": 0, "patch": {"address_in": a1}}, {"op": "save", "rec": 2, "patch": {"address_in": a1}}],
+    }
+    perturbations = [(f, v) for f, vals in SCALAR_FIELDS.items() for v in vals] + [("address_out", a2), ("address_nat", a2), ("address_out", EMPTY)]
+    perturbations += [(k, v) for k in DYN_KEYS[:6] for v in (True, "x", 7)]
+    n = 0
+    for sname, setup in setups.items():
+        nrec = 3 if sname == "three_records" else 2
+        for f, v in perturbations:
+            for target in range(nrec):
+                for how in ("save", "patch"):
+                    for second in (None, (target + 1) % nrec):
+                        ops = list(setup) + look + [{"op": how, "rec": target, "patch": {f: v}}] + look
+                        if second is not None:
+                            ops += [{"op": "save", "rec": second, "patch": {f: v}}] + look
+                        ctx.run_case(sub.name, oracle_history, {"ops": ops})
+                        ctx.tally.case(sub.name, nontrivial=True, cls=f"{sname}.{'builtin' if f in FIELDS else 'dynamic'}")
+                        n += 1
+    ctx.tally.notes.append(f"{sub.name}: {n} directed histories")
+
+
 SUBCHECKS = [
+    SubCheck("duplicate_address_stability", oracle_history, drv_duplicates, "directed histories: several records share one address_in, single-field perturbations, the returned record must stay the same"),
     SubCheck("exhaustive_histories", oracle_history, drv_exhaustive, "all op sequences over a 14-op alphabet up to length 5 (quick) / 6 (thorough) vs the reference model"),
     SubCheck("random_histories", oracle_history, drv_random, "Hypothesis RuleBasedStateMachine histories (up to 60 / 300 steps) vs the reference model"),
 ]
